@@ -2,7 +2,7 @@
 ContextVar token discipline, base code iff nothing is active."""
 import ast
 
-from ..astq import is_name, is_self_attr, kwarg, returns_of, parse_fixture, compare_normal
+from ..astq import compare_normal, conds, is_name, is_self_attr, kwarg, parse_fixture, returns_of
 from ..callgraph import CallGraph
 from ..cfg import CFG
 from ..core import AnalysisError, norm, walk_local, FuncInfo
@@ -138,7 +138,7 @@ def run(repo, chk):
             guard = None
             if acq_q == "overlay.BaseOverlay.__enter__":
                 # the guard `if self.handlers` wraps both: release is required only under the same condition (checked below)
-                ok, path, nrel = released_under_guard(r, res, ctxvars)
+                ok, path, nrel = released_under_guard(r, res, ctxvars, guard_of(a.node, "set", ctxvars))
             else:
                 ok, path, nrel = released_on_all_normal_paths(r, res, ctxvars, acq_loop_iter=loops.get(res),
                                                               cut_false_of=GUARD_EXEMPT.get(rel_q, ()))
@@ -203,14 +203,9 @@ def run(repo, chk):
     recvs = {norm(c.func.value) for c in wcalls}
     chk.ob("R05.2", "overlay.autotool:same-traversal", wraps == ["_tooler", "_untooler"] and len(recvs) == 1, at.where,
            f"autotool and its undo walk the same selector with inverse wrappers ({wraps} on {sorted(recvs)})")
-    undo_branch = None
-    for n in walk_local(at.node):
-        if isinstance(n, ast.If) and norm(n.test) == "undo":
-            undo_branch = n
-    def roles(stmts):
-        return sorted({str(_wrapper_role(c.args[0], c)) for st in stmts for c in ast.walk(st)
-                       if isinstance(c, ast.Call) and isinstance(c.func, ast.Attribute) and c.func.attr == "wrap_functions" and c.args})
-    ok = undo_branch is not None and roles(undo_branch.body) == ["_untooler"] and roles(undo_branch.orelse) == ["_tooler"]
+    undo = at.node.args.args[1].arg if len(at.node.args.args) > 1 else "undo"
+    by_role = {str(_wrapper_role(c.args[0], c)): sorted(set(conds(c, at.node))) for c in wcalls}
+    ok = by_role.get("_untooler") == [undo] and by_role.get("_tooler") == [f"not {undo}"]
     chk.ob("R05.2", "overlay.autotool:undo-selects-untooler", ok, at.where, "undo=True selects the popping wrapper, otherwise the pushing one")
     wf = repo.func("selector.Call.wrap_functions")
     t = norm(wf.node)
@@ -349,27 +344,16 @@ def enclosing_test(node):
 
 
 def guard_of(fn, method, ctxvars):
+    """Conditions (astq.conds: nested ifs and guard clauses alike) under which fn calls <ContextVar>.<method>; None if it never does."""
     for n in walk_local(fn):
         if isinstance(n, ast.Call) and isinstance(n.func, ast.Attribute) and n.func.attr == method and any(norm(n.func.value).endswith(cv) for cv in ctxvars):
-            cur = n
-            tests = []
-            while cur is not fn:
-                par = cur._parent
-                if isinstance(par, ast.If):
-                    tests.append(norm(par.test) if cur in par.body else f"not ({norm(par.test)})")
-                cur = par
-            return " and ".join(reversed(tests)) or "<unconditional>"
+            return sorted(set(conds(n, fn)))
     return None
 
 
-def released_under_guard(fi, res, ctxvars):
-    """Release required on every normal path that takes the true branch of the function's top-level guard."""
-    body = fi.node.body
-    if len(body) == 1 and isinstance(body[0], ast.If) and not body[0].orelse:
-        inner = ast.FunctionDef(name=fi.node.name, args=fi.node.args, body=body[0].body, decorator_list=[], returns=None, lineno=fi.node.lineno, col_offset=0)
-        fake = FuncInfo(fi.qual, inner, fi.module, fi.cls, fi.parent)
-        return released_on_all_normal_paths(fake, res, ctxvars)
-    return released_on_all_normal_paths(fi, res, ctxvars)
+def released_under_guard(fi, res, ctxvars, assume):
+    """Release required on every normal path on which the conditions of the acquire (`assume`) hold."""
+    return released_on_all_normal_paths(fi, res, ctxvars, assume=assume or ())
 
 
 def receiver_class(cg, fi, recv):
